@@ -198,6 +198,24 @@ async def same_receiver_twice():
         except BaseException as e: ev.append((type(e).__name__, f'id-{i}'))
     return ev
 
+async def timeouts_across_messages():
+    """four messages of ONE task name through one receiver, each with its OWN timeout label: loose (returns), tight (cut off), loose again, none at all"""
+    from taskiq import InMemoryBroker
+    from taskiq.receiver import Receiver
+    from taskiq.message import TaskiqMessage
+    from taskiq.abc.broker import AsyncBroker
+    AsyncBroker.global_task_registry = {}
+    b = InMemoryBroker(); out = []
+    async def t(d: float) -> str: await asyncio.sleep(d); return 'finished'
+    b.register_task(t, task_name='t'); r = Receiver(b, max_async_tasks=2, run_startup=False)
+    plan = [(5, 0.01, False), (0.05, 0.4, True), (5, 0.2, False), (None, 0.2, False), (0.05, 0.4, True)]          # (timeout label, duration, must be cut off)
+    for i, (lim, dur, cut) in enumerate(plan):
+        labels = {} if lim is None else {'timeout': lim}
+        await r.callback(b.formatter.dumps(TaskiqMessage(task_id=f'id-{i}', task_name='t', labels=labels, labels_types=None, args=[dur], kwargs={})).message)
+        res = await b.result_backend.get_result(f'id-{i}')
+        out.append((i, lim, dur, cut, res.is_err, type(res.error).__name__ if res.error is not None else None, res.return_value))
+    return out
+
 async def inmemory_failing_backend():
     from taskiq import InMemoryBroker
     from taskiq.abc.result_backend import AsyncResultBackend
@@ -511,6 +529,12 @@ def run(sc):
     if got != [('own', 41, 2.5), ('own', 41, 2.5)]:
         fails.append({'key': 'shadowed-shared-task', 'config': {'own task': 'def own(x: int, y: float)', 'shared task of the same name': 'def shared(x: str, y: str)', 'sent': {'args': ['41'], 'kwargs': {'y': '2.5'}}},
                       'failed_clauses': [f"C08: the broker's own task `own(x: int, y: float)` shadows a shared task of the same name with other annotations; sent ('41', y='2.5') twice, (function, x, y) executed = {got}, expected the own function with 41 and 2.5"], 'trace': [str(got)]})
+    got = asyncio.run(timeouts_across_messages()); n += 1
+    cl = []
+    for i, lim, dur, cut, is_err, err, rv in got:
+        if cut and not (is_err and err == 'TimeoutError'): cl.append(f"C07: message id-{i} of task `t` carries timeout={lim} and its function takes {dur} s: stored result is_err={is_err} error={err} return_value={rv!r}, expected a TimeoutError (earlier messages of the same task carried other timeout labels: {[g[1] for g in got[:i]]})")
+        if not cut and (is_err or rv != 'finished'): cl.append(f"C07: message id-{i} of task `t` carries timeout={lim} and its function takes {dur} s: stored result is_err={is_err} error={err}, expected the return value (earlier messages of the same task carried other timeout labels: {[g[1] for g in got[:i]]})")
+    if cl: fails.append({'key': 'timeouts-across-messages', 'config': {'plan (timeout label, duration)': [(g[1], g[2]) for g in got]}, 'failed_clauses': cl, 'trace': [str(got)]})
     got = asyncio.run(same_receiver_twice()); n += 1
     want_ = [('pre_execute', 'id-0'), ('task', 'id-0', 'explicit'), ('post_execute', 'id-0'), ('post_save', 'id-0'), ('pre_execute', 'id-1'), ('task', 'id-1', 'explicit'), ('post_execute', 'id-1'), ('post_save', 'id-1')]
     if got != want_:
